@@ -31,6 +31,7 @@ class Spec:
   rm_virtual = False
   follow_errors = False
   keep_backref_order = True
+  soft_clauses = ()      # reported, but the state is still expanded
 
   def __init__(self, **kw):
     for k, v in kw.items():
@@ -105,6 +106,9 @@ def apply_op(g, op, env):
     l.delete(op[2])
   elif k == "plq":
     g.process_line_queue()
+  elif k == "setfield":
+    l = find_by_text(g, op[1])
+    l.set(op[2], op[3])
   else:
     raise ValueError("unknown op " + repr(op))
 
@@ -128,6 +132,9 @@ def op_to_py(op):
     return "g.try_get_line({!r}).name = {!r}".format(op[1], op[2])
   if k == "plq":
     return "g.process_line_queue()"
+  if k == "setfield":
+    return "[l for l in g.lines if str(l) == {!r}][0].set({!r}, {!r})".format(
+        op[1], op[2], op[3])
   return "# " + repr(op)
 
 
@@ -252,7 +259,8 @@ def expand(item):
       for clause, detail in probs:
         res["violations"].append(
             {"clause": clause, "hist": newhist, "detail": detail})
-      continue  # violating states are not expanded
+      if any(c not in spec.soft_clauses for c, _ in probs):
+        continue  # violating states are not expanded
     if err is not None and not spec.follow_errors:
       res["outcomes"].add("refused:" + type(err).__name__)
       continue
